@@ -371,6 +371,12 @@ func vcliC18Session(r *verifrt.R, c *verifrt.Case) {
 	r.Event("sessions", 1)
 	r.Event("failpoint_sleeps", s.Delay.slept.Load())
 	r.Event("dials", s.dials.Load())
+	if n := s.BodyReadAfterClose.Load(); n > 0 {
+		r.Event("request_body_read_after_close", n)
+		if r.EventCount("request_body_read_after_close") == n {
+			r.Note("observation (outside the C18 statement): %s/%d a request that failed with errClientConnUnusable before anything was read had its Body closed by cleanupWriteRequest and was then retried with the same, closed Body (shouldRetryRequest reuses req for errClientConnUnusable); the harness body tolerates reads after Close, a stricter body would make the retry fail", c.Stream, c.Index)
+		}
+	}
 	if completed {
 		r.Event("sessions_completed", 1)
 	}
@@ -448,6 +454,24 @@ func vcliC18Session(r *verifrt.R, c *verifrt.Case) {
 			r.Event("requests_finished_without_stream", 1)
 			if rq.Err == nil {
 				s.Viol("success-without-stream", "%s", desc)
+			} else if _, ok := rq.Err.(GoAwayError); ok {
+				// stream id <= L allocated, the connection went away before the HEADERS reached
+				// the server: the client cannot know, failing with the connection's error is
+				// what the statement allows for ids <= L
+				r.Event("requests_le_L_lost_in_close_failed_with_GoAwayError", 1)
+			} else if strings.Contains(rq.Err.Error(), "graceful shutdown GOAWAY") {
+				// stream id > L allocated, GOAWAY processed before the HEADERS were written
+				r.Event("requests_aborted_by_goaway_before_headers_not_replayable", 1)
+				if replayable {
+					s.Viol("replayable-request-above-last-stream-id-not-retried", "%s", desc)
+				}
+			} else if strings.Contains(rq.Err.Error(), "received GOAWAY from server ErrCode") {
+				r.Event("stream1_error_goaway_failed_without_retry", 1)
+			} else {
+				r.Event("requests_without_stream_other_error", 1)
+				if r.EventCount("requests_without_stream_other_error") <= 3 {
+					r.Note("request finished without ever reaching the wire: %s", desc)
+				}
 			}
 			continue
 		}
@@ -465,6 +489,13 @@ func vcliC18Session(r *verifrt.R, c *verifrt.Case) {
 				if last.sc.Idx > 0 && len(us) == 1 {
 					r.Event("new_requests_after_goaway_went_to_new_connection", 1)
 				}
+			}
+		case last.st.cliReset && last.st.cliResetBeforeGoAway:
+			// given up by the client before any GOAWAY was sent on that connection: not a
+			// GOAWAY outcome (does not happen unless a request fails for another reason)
+			r.Event("requests_reset_by_client_before_goaway", 1)
+			if rq.Err == nil {
+				s.Viol("success-without-answer", "%s", desc+lastTrace)
 			}
 		case sh.goAwaySent && last.st.id > sh.goAwayLast:
 			fmt.Fprint(sig, "=gt-L")
